@@ -55,6 +55,20 @@ def instances(tier, seed):
         out.append(dict(name="byteswapped Bytes(%d)" % n, params=dict(kind="bswap", n=n)))
         out.append(dict(name="bitsswapped Bytes(%d)" % n, params=dict(kind="bitswap", n=n)))
     out.append(dict(name="byteswapped Struct", params=dict(kind="bswap-struct")))
+    # swapped numeric fields in every byte order, the host's native order included
+    for nm in ("Int16ub", "Int16ul", "Int16un", "Int16sn", "Int24ub", "Int24sl", "Int24un", "Int32un", "Int32sb", "Int64sn", "Int64ul", "Float32n", "Float32b", "Float64n", "Float16n",
+               "BytesInteger(3, swapped=True)", "BytesInteger(5, signed=True)"):
+        out.append(dict(name="byteswapped %s" % nm, params=dict(kind="bswap-field", sub=nm)))
+        out.append(dict(name="bitsswapped %s" % nm, params=dict(kind="bitswap-field", sub=nm)))
+    # transforms at a non-zero stream offset, inside a region, and after a previous call with other parameters
+    for off in (1, 3):
+        for l in (2, 3):
+            out.append(dict(name="xor bytes-key len=%d at stream offset %d" % (l, off), params=dict(kind="xor-offset", l=l, off=off, n=5)))
+    out.append(dict(name="xor bytes-key len=3 inside Prefixed after a header", params=dict(kind="xor-offset", l=3, off=2, n=4, region=True)))
+    out.append(dict(name="rotate at stream offset 1, group 2", params=dict(kind="rot-offset", g=2, off=1)))
+    for g1, g2 in ((1, 2), (2, 1), (2, 4), (4, 2), (3, 1)):
+        out.append(dict(name="rotate: one instance, group from the context %d then %d" % (g1, g2), params=dict(kind="rot-twice", g1=g1, g2=g2)))
+    out.append(dict(name="xor: one instance, key from the context, two calls", params=dict(kind="xor-twice")))
     for n in (0, 1, 3):
         out.append(dict(name="bitsswapped GreedyBytes data=%d (streaming)" % n, params=dict(kind="bitswap-greedy", n=n)))
     for enc in ("zlib", "gzip", "bzip2", "lzma"):
@@ -124,6 +138,40 @@ def _xor(ctx, C, p):
         ctx.check("build inverts parse", ctx.eq(d.build(v, key=key), data))
         ctx.check("sizeof passes through", d.sizeof(key=0) == 3)
         return "ok"
+    if kind == "xor-offset":
+        # the key cycle starts at the first byte of the transformed region, wherever that region lies in the stream
+        key = ctx.bytes("key", p["l"])
+        kb = list(key)
+        off, n = p["off"], p["n"]
+        if p.get("region"):
+            d = mk(C, "Struct('h'/Bytes(%d), 'p'/Prefixed(Byte, ProcessXor(this._.key if False else this._params.key, GreedyBytes)), 't'/Byte)" % off)
+        else:
+            d = mk(C, "Struct('h'/Bytes(%d), 'x'/ProcessXor(this._params.key, GreedyBytes))" % off)
+        head, body = ctx.bytes("head", off), ctx.bytes("body", n)
+        exp = mkbytes([x8(b, kb[i % len(kb)]) for i, b in enumerate(body)])
+        if p.get("region"):
+            t = ctx.int("t", 0, 255)
+            data = head + mkbytes([n]) + body + mkbytes([t])
+            v = d.parse(data, key=key)
+            ctx.check("parse presents region xor key cycled from the region's first byte", api.and_terms([ctx.eq(v.p, exp), ctx.eq(v.t, t)]))
+            ctx.check("build inverts parse", ctx.eq(d.build(v, key=key), data))
+        else:
+            data = head + body
+            v = d.parse(data, key=key)
+            ctx.check("parse presents data xor key cycled from the transform's first byte", ctx.eq(v.x, exp))
+            ctx.check("build emits the same encoding", ctx.eq(d.build(dict(h=head, x=exp), key=key), data))
+            ctx.check("parse_stream of the bare transform at a non-zero offset", ctx.eq(_at(ctx, C, "ProcessXor(this.key, GreedyBytes)", data, off, key=key), exp))
+        return "ok"
+    if kind == "xor-twice":
+        d = mk(C, "ProcessXor(this.key, GreedyBytes)")
+        k1, k2 = ctx.bytes("key1", 2), ctx.bytes("key2", 3)
+        data = ctx.bytes("data", 4)
+        d.parse(data, key=k1)
+        d.build(data, key=k1)
+        exp = mkbytes([x8(b, list(k2)[i % 3]) for i, b in enumerate(data)])
+        ctx.check("second call, other key: parse", ctx.eq(d.parse(data, key=k2), exp))
+        ctx.check("second call, other key: build", ctx.eq(d.build(data, key=k2), exp))
+        return "ok"
     d = mk(C, "ProcessXor(this.key, GreedyBytes)")
     n = p["n"]
     data = ctx.bytes("data", n)
@@ -163,6 +211,31 @@ def _rot(ctx, C, p):
         ctx.check("inner Struct sees rotated groups", api.and_terms([ctx.eq(v.a, exp[0] * 256 + exp[1]), ctx.eq(v.b, exp[3] * 256 + exp[2])]))
         ctx.check("build inverts parse", ctx.eq(d.build(v, amount=a), data))
         return "ok"
+    if kind == "rot-twice":
+        # one instance whose group size comes from the context: the second call uses its own group, not the first one's
+        d = mk(C, "ProcessRotateLeft(this.amount, this.group, GreedyBytes)")
+        a = ctx.int("amount", -64, 64)
+        g1, g2 = p["g1"], p["g2"]
+        warm = ctx.bytes("warm", 4 if 4 % g1 == 0 else g1)
+        api.outcome(d.parse, warm, amount=a, group=g1)
+        api.outcome(d.build, warm, amount=a, group=g1)
+        data = ctx.bytes("data", g2 * (4 // g2 if g2 <= 4 else 1))
+        exp, expb = [], []
+        for j in range(len(data) // g2):
+            exp += rotl_group(list(data[j * g2:(j + 1) * g2]), a)
+            expb += rotl_group(list(data[j * g2:(j + 1) * g2]), -a)
+        rp, rb = api.outcome(d.parse, data, amount=a, group=g2), api.outcome(d.build, data, amount=a, group=g2)
+        ctx.check("second call with another group size: parse rotates each of ITS groups", rp.ok and ctx.fork(ctx.eq(rp.value, mkbytes(exp))))
+        ctx.check("second call with another group size: build", rb.ok and ctx.fork(ctx.eq(rb.value, mkbytes(expb))))
+        return "ok"
+    if kind == "rot-offset":
+        g, off = p["g"], p["off"]
+        a = ctx.int("amount", -64, 64)
+        head, body = ctx.bytes("head", off), ctx.bytes("body", 2 * g)
+        exp = rotl_group(list(body[:g]), a) + rotl_group(list(body[g:]), a)
+        got = _at(ctx, C, "ProcessRotateLeft(this.amount, %d, GreedyBytes)" % g, head + body, off, amount=a)
+        ctx.check("groups are counted from the transform's first byte, not from the start of the stream", ctx.eq(got, mkbytes(exp)))
+        return "ok"
     g = p["g"]
     d = mk(C, "ProcessRotateLeft(this.amount, %d, GreedyBytes)" % g)
     a = ctx.int("amount", -4096, 4096)
@@ -191,6 +264,12 @@ def _rot(ctx, C, p):
     return "ok"
 
 
+def _at(ctx, C, source, data, off, **kw):
+    st = ctx.stream(data)
+    st.seek(off)
+    return mk(C, source).parse_stream(st, **kw)
+
+
 def _swap(ctx, C, p):
     kind = p["kind"]
     if kind == "bswap-struct":
@@ -207,6 +286,20 @@ def _swap(ctx, C, p):
         exp = mkbytes([rev8(b) for b in data])
         ctx.check("streaming path: parse presents bit-reversed bytes", ctx.eq(d.parse(data), exp))
         ctx.check("streaming path: build emits bit-reversed bytes", ctx.eq(d.build(data), exp))
+        return "ok"
+    if kind in ("bswap-field", "bitswap-field"):
+        # the swapped field reads the transformed bytes: parse(x) of the wrapper == parse(T(x)) of the field, build == T(build)
+        sub = mk(C, p["sub"])
+        n = sub.sizeof()
+        d = mk(C, ("ByteSwapped(%s)" if kind == "bswap-field" else "BitsSwapped(%s)") % p["sub"])
+        data = ctx.bytes("data", n)
+        tr = mkbytes(list(data)[::-1]) if kind == "bswap-field" else mkbytes([rev8(b) for b in data])
+        ctx.check("parse of the wrapper is the field's parse of the transformed bytes", ctx.eq(d.parse(data), sub.parse(tr)))
+        v = sub.parse(data)
+        plain = sub.build(v)
+        want = mkbytes(list(plain)[::-1]) if kind == "bswap-field" else mkbytes([rev8(b) for b in plain])
+        ctx.check("build of the wrapper is the transformed encoding of the field", ctx.eq(d.build(v), want))
+        ctx.check("sizeof", d.sizeof() == n)
         return "ok"
     n = p["n"]
     data = ctx.bytes("data", n)
